@@ -20,7 +20,18 @@ import random
 import signal
 import subprocess
 import sys
-import time as _real_time
+import time as _time_module
+
+
+class _RealTime:
+    """The real clock functions, captured at import time (the simulator rebinds the public ones during a run)."""
+
+    perf_counter = staticmethod(_time_module.perf_counter)
+    monotonic = staticmethod(_time_module.monotonic)
+    time = staticmethod(_time_module.time)
+
+
+_real_time = _RealTime
 import traceback
 from collections import Counter
 from concurrent.futures import ProcessPoolExecutor, wait, FIRST_COMPLETED
@@ -290,18 +301,35 @@ class RunContext:
     # -- clock seam ------------------------------------------------------------
     @contextlib.contextmanager
     def clock_installed(self):
+        """Every clock the library could read is the simulated one: the `time` name imported by the three modules
+        that read a clock today, any other fairlearn module attribute bound to a real clock function, and the
+        clock functions of the `time` module itself (for code that calls time.time() / perf_counter() / monotonic())."""
         import importlib
 
+        real = {_RealTime.time, _RealTime.perf_counter, _RealTime.monotonic}
         saved = []
         for name in CLOCK_MODULES:
             mod = importlib.import_module(name)
-            saved.append((mod, getattr(mod, "time")))
+            saved.append((mod, "time", getattr(mod, "time")))
             mod.time = self.clock
+        for name, mod in list(sys.modules.items()):
+            if mod is None or not name.startswith("fairlearn"):
+                continue
+            for attr, val in list(vars(mod).items()):
+                try:
+                    if val in real:
+                        saved.append((mod, attr, val))
+                        setattr(mod, attr, self.clock)
+                except TypeError:
+                    continue
+        for attr in ("time", "perf_counter", "monotonic"):
+            saved.append((_time_module, attr, getattr(_time_module, attr)))
+            setattr(_time_module, attr, self.clock)
         try:
             yield self.clock
         finally:
-            for mod, t in saved:
-                mod.time = t
+            for mod, attr, t in reversed(saved):
+                setattr(mod, attr, t)
 
 
 def exc_site(e: BaseException) -> str:
